@@ -91,8 +91,9 @@ Proof.
   induction ss as [|s r IH]; intros t HF H.
   - split; [reflexivity|exact H].
   - inversion HF as [|? ? Hs Hr]; subst.
-    destruct s as [f| |].
+    destruct s as [f| | |].
     + cbn [run_steps apply_edits]. apply IH; [exact Hr|]. apply Hs, H.
+    + cbn [run_steps apply_edits]. apply IH; assumption.
     + cbn [run_steps apply_edits]. apply IH; assumption.
     + rewrite redecode_noop by exact H. cbn [apply_edits]. apply IH; assumption.
 Qed.
